@@ -918,6 +918,50 @@ def _dihedral_blocks(S, RU, FN):
         S.add_canary(I, FN + "/canary#%d" % pi, [h for h in p.pc if not z3.is_quantifier(h)])
     S.add_interp_obligations(I)
 
+    # -------- parameter statement: the entry of a type is (dihedral_params(*its own key, bond_order_rules=caller's), its own key)
+    par_st = _one(fn, lambda n: is_assign_to(n, 'params') and isinstance(n.value, _ast.ListComp) and 'dihedral_params' in _ast.unparse(n.value),
+                  'params = [(dihedral_params(*key, ...), key) for key in unique_dihedral_types]')
+    pv = par_st.value
+    if not (len(pv.generators) == 1 and not pv.generators[0].ifs and _ast.unparse(pv.generators[0].iter) == 'unique_dihedral_types'):
+        raise OutOfSubset("params is not one unfiltered comprehension over unique_dihedral_types (contract no longer applies)")
+    I3 = S.interp()
+    I3.allow_merge = False
+    models_py.install(I3)
+    OBJ = models_py.ObjS
+    dp = I3.reg.ufunc('dihedral_params', StrS, StrS, StrS, StrS, INT, OBJ, OBJ)
+    rules = Opaque(z3.Const('bond_order_rules', OBJ), 'rules')
+    seen = {}
+
+    def m_dp(ctx, args, kwargs):
+        if len(args) != 5 or set(kwargs) != {'bond_order_rules'}:
+            raise OutOfSubset("dihedral_params is not called as dihedral_params(t1, t2, t3, t4, count, bond_order_rules=...)")
+        seen['n'] = seen.get('n', 0) + 1
+        return Opaque(dp(*[to_z3(x) for x in args], models_py.to_obj(I3, kwargs['bond_order_rules'])), 'dihedral_params')
+    I3.models['%s:dihedral_params' % RU] = m_dp
+    kt = [z3.Const('key_t%d' % c, StrS) for c in range(4)] + [z3.Int('key_count')]
+    others = SymSeq(z3.Int('n_unique'), [z3.Array('uniq_c%d' % c, INT, StrS if c < 4 else INT) for c in range(5)], 5, 'list', 'unique_dihedral_types')
+
+    def thunk3():
+        seen.clear()
+        env = {'bond_order_rules': rules, 'unique_dihedral_types': others, '__key': tuple(Sym(x) for x in kt)}
+        ctx = I3.block_ctx(RU, FN, env)
+        ctx.exec_block([_ast.fix_missing_locations(_ast.Assign(targets=[pv.generators[0].target], value=_ast.Name(id='__key', ctx=_ast.Load()), lineno=0, col_offset=0))])
+        return ctx.eval(pv.elt), dict(seen)
+    paths3 = I3.explore(thunk3)
+    if not paths3:
+        raise OutOfSubset("no path through the parameter statement")
+    for pi, p in enumerate(paths3):
+        if p.outcome != 'return':
+            raise OutOfSubset("the parameter statement of assign_dihedral_types raises")
+        ent, sn = p.value
+        if not (isinstance(ent, tuple) and len(ent) == 2 and isinstance(ent[0], Opaque) and isinstance(ent[1], tuple) and len(ent[1]) == 5):
+            raise OutOfSubset("an entry of params is not (parameters, 5-tuple key)")
+        S.add(I3, FN + "/post/parameters-of-a-type-computed-from-its-own-key-in-one-of-its-orientations-with-the-callers-rules#%d" % pi, p.pc,
+              z3.And(z3.Or(ent[0].term == dp(*kt, rules.term), ent[0].term == dp(kt[3], kt[2], kt[1], kt[0], kt[4], rules.term)), z3.BoolVal(sn.get('n') == 1), *[to_z3(a) == b for a, b in zip(ent[1], kt)]),
+              clause='attaches to each type the parameters of that sequence')
+        S.add_canary(I3, FN + "[params]/canary#%d" % pi, [h for h in p.pc if not z3.is_quantifier(h)])
+    S.add_interp_obligations(I3)
+
     # -------- exclusion statement: applied through delete_if_all_in_set (proved above) exactly when the set can hold a dihedral
     I2 = S.interp()
     I2.allow_merge = False
